@@ -23,7 +23,12 @@ fn ty_str(t: &syn::Type) -> String {
 }
 
 /// build the standalone struct exactly as downstream code does
-fn standalone(reg: &PortableRegistry, settings: &scale_typegen::TypeGeneratorSettings, name: &str, fields: &[Field<PortableForm>]) -> Result<Result<String, String>, String> {
+fn standalone(
+    reg: &PortableRegistry,
+    settings: &scale_typegen::TypeGeneratorSettings,
+    name: &str,
+    fields: &[Field<PortableForm>],
+) -> Result<Result<String, String>, String> {
     guarded(|| {
         let gen = TypeGenerator::new(reg, settings);
         let kind = gen
@@ -53,8 +58,14 @@ impl<'a, 'b> Graph for Compacted<'a, 'b> {
             Node::Seq(i) => Node::Seq(lift(i)),
             Node::Array(n, i) => Node::Array(n, lift(i)),
             Node::Tuple(v) => Node::Tuple(v.into_iter().map(lift).collect()),
-            Node::Composite(f) => Node::Composite(f.into_iter().map(|(n, i)| (n, lift(i))).collect()),
-            Node::Variant(vs) => Node::Variant(vs.into_iter().map(|(a, b, f)| (a, b, f.into_iter().map(|(n, i)| (n, lift(i))).collect())).collect()),
+            Node::Composite(f) => {
+                Node::Composite(f.into_iter().map(|(n, i)| (n, lift(i))).collect())
+            }
+            Node::Variant(vs) => Node::Variant(
+                vs.into_iter()
+                    .map(|(a, b, f)| (a, b, f.into_iter().map(|(n, i)| (n, lift(i))).collect()))
+                    .collect(),
+            ),
             Node::Bits(s, o) => Node::Bits(s, o),
             Node::Opaque(s) => Node::Opaque(s),
             Node::Broken(s) => Node::Broken(s),
@@ -97,20 +108,33 @@ pub fn check_case(case: &Case, ctx: &mut Ctx) {
         }
         let mut full = vec![spec.root.clone()];
         full.extend(t.ty.path.segments.iter().cloned());
-        let Some(item) = em.items.get(&full) else { continue };
+        let Some(item) = em.items.get(&full) else {
+            continue;
+        };
         if !item.generics.is_empty() {
             continue; // the property is about items without generic parameters
         }
         // field lists: the struct's own, or one per variant
-        let lists: Vec<(String, &Vec<Field<PortableForm>>, Option<&FieldsAst>)> = match (&t.ty.type_def, &item.kind) {
-            (TypeDef::Composite(c), ItemKind::Struct(f)) => vec![(item.path.last().cloned().unwrap_or_default(), &c.fields, Some(f))],
-            (TypeDef::Variant(v), ItemKind::Enum(gv)) => v
-                .variants
-                .iter()
-                .map(|x| (x.name.clone(), &x.fields, gv.iter().find(|g| g.name == x.name).map(|g| &g.fields)))
-                .collect(),
-            _ => continue,
-        };
+        let lists: Vec<(String, &Vec<Field<PortableForm>>, Option<&FieldsAst>)> =
+            match (&t.ty.type_def, &item.kind) {
+                (TypeDef::Composite(c), ItemKind::Struct(f)) => vec![(
+                    item.path.last().cloned().unwrap_or_default(),
+                    &c.fields,
+                    Some(f),
+                )],
+                (TypeDef::Variant(v), ItemKind::Enum(gv)) => v
+                    .variants
+                    .iter()
+                    .map(|x| {
+                        (
+                            x.name.clone(),
+                            &x.fields,
+                            gv.iter().find(|g| g.name == x.name).map(|g| &g.fields),
+                        )
+                    })
+                    .collect(),
+                _ => continue,
+            };
         for (name, fields, emitted_fields) in lists {
             ctx.exec(1);
             let what = format!("{}::{name}", t.ty.path.segments.join("::"));
@@ -121,11 +145,21 @@ pub fn check_case(case: &Case, ctx: &mut Ctx) {
             };
             let code = match standalone(&registry, &settings, &name, fields) {
                 Err(p) => {
-                    ctx.violation(format!("C18/panic/{}", truncate(&p, 40)), format!("building the standalone struct for {what} panics: {p}"), replay(), size);
+                    ctx.violation(
+                        format!("C18/panic/{}", truncate(&p, 40)),
+                        format!("building the standalone struct for {what} panics: {p}"),
+                        replay(),
+                        size,
+                    );
                     continue;
                 }
                 Ok(Err(e)) => {
-                    ctx.violation("C18/error", format!("building the standalone struct for {what} fails: {e}"), replay(), size);
+                    ctx.violation(
+                        "C18/error",
+                        format!("building the standalone struct for {what} fails: {e}"),
+                        replay(),
+                        size,
+                    );
                     continue;
                 }
                 Ok(Ok(c)) => c,
@@ -134,18 +168,36 @@ pub fn check_case(case: &Case, ctx: &mut Ctx) {
             let st: syn::ItemStruct = match syn::parse_str(&code) {
                 Ok(s) => s,
                 Err(e) => {
-                    ctx.violation("C18/not-a-struct", format!("standalone struct for {what} `{}` does not parse: {e}", truncate(&code, 200)), replay(), size);
+                    ctx.violation(
+                        "C18/not-a-struct",
+                        format!(
+                            "standalone struct for {what} `{}` does not parse: {e}",
+                            truncate(&code, 200)
+                        ),
+                        replay(),
+                        size,
+                    );
                     continue;
                 }
             };
             if !st.generics.params.is_empty() {
-                ctx.violation("C18/generic", format!("standalone struct for {what} has generic parameters"), replay(), size);
+                ctx.violation(
+                    "C18/generic",
+                    format!("standalone struct for {what} has generic parameters"),
+                    replay(),
+                    size,
+                );
             }
             let got: Vec<&syn::Field> = st.fields.iter().collect();
             if got.len() != fields.len() {
                 ctx.violation(
                     "C18/field-count",
-                    format!("standalone struct for {what} has {} fields, the list has {} (`{}`)", got.len(), fields.len(), truncate(&squash(&code), 200)),
+                    format!(
+                        "standalone struct for {what} has {} fields, the list has {} (`{}`)",
+                        got.len(),
+                        fields.len(),
+                        truncate(&squash(&code), 200)
+                    ),
                     replay(),
                     size,
                 );
@@ -154,12 +206,28 @@ pub fn check_case(case: &Case, ctx: &mut Ctx) {
             for (i, (rf, gf)) in fields.iter().zip(got.iter()).enumerate() {
                 let gname = gf.ident.as_ref().map(|x| x.to_string());
                 if gname != rf.name {
-                    ctx.violation("C18/field-name", format!("{what}: field {i} is named {gname:?}, the list says {:?}", rf.name), replay(), size);
+                    ctx.violation(
+                        "C18/field-name",
+                        format!(
+                            "{what}: field {i} is named {gname:?}, the list says {:?}",
+                            rf.name
+                        ),
+                        replay(),
+                        size,
+                    );
                 }
                 if !matches!(gf.vis, syn::Visibility::Public(_)) {
-                    ctx.violation("C18/not-pub", format!("{what}: field {i} is not pub"), replay(), size);
+                    ctx.violation(
+                        "C18/not-pub",
+                        format!("{what}: field {i} is not pub"),
+                        replay(),
+                        size,
+                    );
                 }
-                let compact = gf.attrs.iter().any(|a| squash(&a.to_token_stream().to_string()) == "#[codec(compact)]");
+                let compact = gf
+                    .attrs
+                    .iter()
+                    .any(|a| squash(&a.to_token_stream().to_string()) == "#[codec(compact)]");
                 let other_attrs: Vec<String> = gf
                     .attrs
                     .iter()
@@ -167,7 +235,12 @@ pub fn check_case(case: &Case, ctx: &mut Ctx) {
                     .filter(|a| a != "#[codec(compact)]" && a.starts_with("#[codec("))
                     .collect();
                 if !other_attrs.is_empty() {
-                    ctx.violation("C18/field-attr", format!("{what}: field {i} carries {other_attrs:?}"), replay(), size);
+                    ctx.violation(
+                        "C18/field-attr",
+                        format!("{what}: field {i} carries {other_attrs:?}"),
+                        replay(),
+                        size,
+                    );
                 }
                 // (a) shape of the field, evaluated where the root module is in scope
                 if spec.codec_attrs {
@@ -193,7 +266,9 @@ pub fn check_case(case: &Case, ctx: &mut Ctx) {
                     let tn = squash(tn);
                     let alloc_root = squash(spec.alloc.as_deref().unwrap_or("::std"));
                     let is_box = ty_str(&gf.ty).starts_with(&format!("{alloc_root}::boxed::Box<"));
-                    let written_box = tn.starts_with("Box<") || tn.starts_with("::std::boxed::Box<") || tn.starts_with("boxed::Box<");
+                    let written_box = tn.starts_with("Box<")
+                        || tn.starts_with("::std::boxed::Box<")
+                        || tn.starts_with("boxed::Box<");
                     let mentions_box = tn.contains("Box<");
                     if written_box && !compact && !is_box {
                         ctx.violation(
@@ -253,16 +328,20 @@ pub fn check_case(case: &Case, ctx: &mut Ctx) {
             // a prelude `Cow<T>` is transparent (DESIGN 4.1): the field is the borrowed type
             let through_cow = |mut id: u32| loop {
                 match registry.resolve(id) {
-                    Some(t) if crate::shape::is_prelude_cow(t) => match t.type_params.first().and_then(|p| p.ty) {
-                        Some(inner) => id = inner.id,
-                        None => return id,
-                    },
+                    Some(t) if crate::shape::is_prelude_cow(t) => {
+                        match t.type_params.first().and_then(|p| p.ty) {
+                            Some(inner) => id = inner.id,
+                            None => return id,
+                        }
+                    }
                     _ => return id,
                 }
             };
             let single_uint = fields.len() == 1
                 && matches!(
-                    registry.resolve(through_cow(fields[0].ty.id)).map(|x| &x.type_def),
+                    registry
+                        .resolve(through_cow(fields[0].ty.id))
+                        .map(|x| &x.type_def),
                     Some(TypeDef::Primitive(
                         scale_info::TypeDefPrimitive::U8
                             | scale_info::TypeDefPrimitive::U16
@@ -276,8 +355,17 @@ pub fn check_case(case: &Case, ctx: &mut Ctx) {
             }
             if got_d != want_d {
                 ctx.violation(
-                    format!("C18/derives/{}", if got_d.len() > want_d.len() { "extra" } else { "missing" }),
-                    format!("{what}: standalone struct derives {got_d:?}, expected exactly {want_d:?}"),
+                    format!(
+                        "C18/derives/{}",
+                        if got_d.len() > want_d.len() {
+                            "extra"
+                        } else {
+                            "missing"
+                        }
+                    ),
+                    format!(
+                        "{what}: standalone struct derives {got_d:?}, expected exactly {want_d:?}"
+                    ),
                     replay(),
                     size,
                 );
@@ -298,7 +386,10 @@ fn settings() -> Vec<(String, SettingsSpec)> {
     let mut base = SettingsSpec::faithful();
     base.attrs_all = vec!["#[g]".into(), "#[codec(crate = ::c)]".into()];
     // type-specific registrations must not leak into the standalone struct
-    base.derives_for = vec![("p::h::Host".into(), vec!["::s::Special".into()], false), ("g::m0::T0".into(), vec!["::s::Special".into()], true)];
+    base.derives_for = vec![
+        ("p::h::Host".into(), vec!["::s::Special".into()], false),
+        ("g::m0::T0".into(), vec!["::s::Special".into()], true),
+    ];
     let mut v = vec![("faithful+global-attrs+specific".to_string(), base.clone())];
     let mut s = base.clone();
     s.compact_as = None;
@@ -335,7 +426,14 @@ pub fn run(tier: &str, seed: u64) -> i32 {
     report.add(explore(&d, &budget, seed, |s, ctx| {
         for (prog, pos) in arms_programs(&s.expr) {
             for (sname, spec) in &sets {
-                check_case(&Case::new(RegSrc::Prog(prog.clone()), spec.clone(), format!("D-arms {pos} {sname}")), ctx);
+                check_case(
+                    &Case::new(
+                        RegSrc::Prog(prog.clone()),
+                        spec.clone(),
+                        format!("D-arms {pos} {sname}"),
+                    ),
+                    ctx,
+                );
             }
         }
     }));
@@ -349,7 +447,10 @@ pub fn run(tier: &str, seed: u64) -> i32 {
         for (sname, spec) in sets.iter().take(if thorough { 5 } else { 2 }) {
             let mut spec = spec.clone();
             spec.root = "root".into();
-            check_case(&Case::new(RegSrc::Prog(s.program()), spec, format!("D-graph {sname}")), ctx);
+            check_case(
+                &Case::new(RegSrc::Prog(s.program()), spec, format!("D-graph {sname}")),
+                ctx,
+            );
         }
     }));
     // the call / event / error enums of chain metadata
@@ -358,7 +459,11 @@ pub fn run(tier: &str, seed: u64) -> i32 {
         let mut spec = spec.clone();
         spec.root = "runtime_types".into();
         spec.derives_for.clear();
-        let mut c = Case::new(RegSrc::Polkadot { retain: None }, spec, format!("polkadot {sname}"));
+        let mut c = Case::new(
+            RegSrc::Polkadot { retain: None },
+            spec,
+            format!("polkadot {sname}"),
+        );
         c.dedup = true;
         chain.push(c);
     }
@@ -390,7 +495,6 @@ pub fn replay(case: &Case) -> Vec<Violation> {
     check_case(case, &mut ctx);
     ctx.violations
 }
-
 
 /// Thorough tier: the standalone structs are compiled next to the generated module with the real
 /// codec derives; every enumerated payload of a variant must decode with the standalone struct,
@@ -443,13 +547,19 @@ pub fn roundtrip_tier() -> Result<Stats, String> {
                 }
                 let mut full = vec![profile.root.clone()];
                 full.extend(t.ty.path.segments.iter().cloned());
-                let Some(item) = em.items.get(&full) else { continue };
+                let Some(item) = em.items.get(&full) else {
+                    continue;
+                };
                 if !item.generics.is_empty() {
                     continue;
                 }
                 let lists: Vec<(Option<u8>, &Vec<Field<PortableForm>>)> = match &t.ty.type_def {
                     TypeDef::Composite(c) => vec![(None, &c.fields)],
-                    TypeDef::Variant(v) => v.variants.iter().map(|x| (Some(x.index), &x.fields)).collect(),
+                    TypeDef::Variant(v) => v
+                        .variants
+                        .iter()
+                        .map(|x| (Some(x.index), &x.fields))
+                        .collect(),
                     _ => continue,
                 };
                 for (index, fields) in lists {
@@ -457,13 +567,17 @@ pub fn roundtrip_tier() -> Result<Stats, String> {
                         continue;
                     }
                     let ids: Vec<u32> = fields.iter().map(|f| f.ty.id).collect();
-                    let Some(payloads) = en.product(&ids, 3) else { continue };
+                    let Some(payloads) = en.product(&ids, 3) else {
+                        continue;
+                    };
                     if payloads.is_empty() {
                         continue;
                     }
                     let name = format!("Standalone{k}");
                     k += 1;
-                    let Ok(Ok(code)) = standalone(&reg, &settings, &name, fields) else { continue };
+                    let Ok(Ok(code)) = standalone(&reg, &settings, &name, fields) else {
+                        continue;
+                    };
                     extra.push_str(&code);
                     extra.push(' ');
                     tests.push((t.id, name.clone(), payloads.clone()));
@@ -485,7 +599,11 @@ pub fn roundtrip_tier() -> Result<Stats, String> {
             if tests.is_empty() {
                 return None;
             }
-            let case = Case::new(RegSrc::Prog(prog.clone()), profile.clone(), "standalone round trip");
+            let case = Case::new(
+                RegSrc::Prog(prog.clone()),
+                profile.clone(),
+                "standalone round trip",
+            );
             Some(RtCase {
                 label: label.clone(),
                 replay: case.replay("C18"),
@@ -517,18 +635,30 @@ pub fn roundtrip_tier() -> Result<Stats, String> {
         wall_s: res.wall_s,
         ..Default::default()
     };
-    st.samples = cases.iter().take(2).map(|c| json!({"label": c.label, "module_and_structs": truncate(&c.tokens, 500)})).collect();
+    st.samples = cases
+        .iter()
+        .take(2)
+        .map(|c| json!({"label": c.label, "module_and_structs": truncate(&c.tokens, 500)}))
+        .collect();
     let mut by: std::collections::BTreeMap<String, (u64, Violation)> = Default::default();
     for f in &res.failures {
         let c = &cases[f.case];
         let class = f.message.split(' ').nth(1).unwrap_or("failure").to_string();
         let v = Violation {
             sig: format!("C18/rustc-roundtrip/{class}"),
-            detail: format!("{} case, registry id {}: {} - code: {}", c.label, f.id, f.message, truncate(&c.tokens, 400)),
+            detail: format!(
+                "{} case, registry id {}: {} - code: {}",
+                c.label,
+                f.id,
+                f.message,
+                truncate(&c.tokens, 400)
+            ),
             replay: c.replay.clone(),
             size: c.tokens.len(),
         };
-        by.entry(v.sig.clone()).and_modify(|e| e.0 += 1).or_insert((1, v));
+        by.entry(v.sig.clone())
+            .and_modify(|e| e.0 += 1)
+            .or_insert((1, v));
     }
     for e in &res.compile_errors {
         let c = &cases[e.case];
@@ -538,7 +668,9 @@ pub fn roundtrip_tier() -> Result<Stats, String> {
             replay: c.replay.clone(),
             size: c.tokens.len(),
         };
-        by.entry(v.sig.clone()).and_modify(|e| e.0 += 1).or_insert((1, v));
+        by.entry(v.sig.clone())
+            .and_modify(|e| e.0 += 1)
+            .or_insert((1, v));
     }
     st.violations = by
         .into_values()
